@@ -121,8 +121,8 @@ def check_welford(ctx):
             for p in parts:
                 d.add_data(ocol(p))
             st = d.state['store']
-            got = (F(st[0]), F(st[1][0]), F(st[2][0]))
-            sc = d.state['scale'][0]
+            got = (F(st[0]), F(np.ravel(st[1])[0]), F(np.ravel(st[2])[0]))       # (np.ravel: robust against a scalar where an array is expected)
+            sc = np.ravel(d.state['scale'])[0]
             case = dict(kind='welford', data=[q2j(x) for x in data], partition=comp)
             ctx.case(case, n >= 2 and len(comp) >= 2)
             ctx.count('welford.parts', min(len(comp), 8))
